@@ -185,8 +185,14 @@ pub fn run(seed: u64, n: usize, out: &Path, thorough: bool, id: &str, module: &s
             std::mem::swap(&mut ops_a, &mut ops_b);
         }
         verif::set_sync_config(None);
-        let (mut sa, res_a) = c02::build_state(&w, &ops_a, pa)?;
-        let (mut sb, res_b) = c02::build_state(&w, &ops_b, pb)?;
+        // a fifth of the stores held (and dropped) an earlier version of the document before
+        let churn_a = rng.chance(1, 5);
+        let churn_b = rng.chance(1, 5);
+        // the earlier version: a prefix of the own history, or what the other side holds now
+        let ea: Vec<Op> = if rng.chance(1, 2) { ops_a[..rng.below(ops_a.len() as u64 + 1) as usize].to_vec() } else { ops_b.clone() };
+        let eb: Vec<Op> = if rng.chance(1, 2) { ops_b[..rng.below(ops_b.len() as u64 + 1) as usize].to_vec() } else { ops_a.clone() };
+        let (mut sa, res_a) = if churn_a { stats.inc("store_rebuilt_after_removal"); c02::build_state_churned(&w, &ops_a, pa, &ea)? } else { c02::build_state(&w, &ops_a, pa)? };
+        let (mut sb, res_b) = if churn_b { stats.inc("store_rebuilt_after_removal"); c02::build_state_churned(&w, &ops_b, pb, &eb)? } else { c02::build_state(&w, &ops_b, pb)? };
         let foreign_a = add_foreign(&mut sa, &mut rng, &mut stats, &w)?;
         let foreign_b = add_foreign(&mut sb, &mut rng, &mut stats, &w)?;
         let a0 = all_entries(sa.s(), w.ns_id())?;
